@@ -147,9 +147,11 @@ func (n *decoratorNode) Call(s containerStore) (err error) {
 		}()
 	}
 
+	// See constructorNode.Call: a panic(nil) may be recovered as nil.
+	returned := false
 	if n.s.recoverFromPanics {
 		defer func() {
-			if p := recover(); p != nil {
+			if p := recover(); p != nil || !returned {
 				err = PanicError{
 					fn:    n.location,
 					Panic: p,
@@ -159,6 +161,7 @@ func (n *decoratorNode) Call(s containerStore) (err error) {
 	}
 
 	results := s.invoker()(reflect.ValueOf(n.dcor), args)
+	returned = true
 	if err = n.results.ExtractList(n.s, true /* decorated */, results); err != nil {
 		return errDecoratorFailed{Reason: err}
 	}
